@@ -2,7 +2,7 @@
 from . import shared as S
 
 META = {
-    'claim_added': "Also decided: the sweetened node is what the enum/string-like representers return; the converting handler cannot fail itself (literal format strings, e.args guarded) and may sit at the hook call or at its caller; the registries used for 'registered ancestor' are not shared tables (R11.3). Round 3: every path through __process_node passes the recognition gate (no already-tagged shortcut); only the classes passed by the caller are registered, on the loading and on the dumping side (R10.7).",
+    'claim_added': "Also decided: the sweetened node is what the enum/string-like representers return; the converting handler cannot fail itself (literal format strings, e.args guarded) and may sit at the hook call or at its caller; the registries used for 'registered ancestor' are not shared tables (R11.3). Round 3: every path through __process_node passes the recognition gate (no already-tagged shortcut); only the classes passed by the caller are registered, on the loading and on the dumping side (R10.7). Round 6: nothing returns before the loop over the bases (R10.2); R10.9 - the walk does not reach registered ancestors behind an unregistered class (known finding F23). Round 6 (E14): caches on the code this property is about are invisible - no value that lives in a memo cell (dict / lazily filled attribute / lru_cache) is modified by the code it is handed to, the key of a cell contains every input its value depends on, no mutable parameter default is modified or handed out; given that, the program is analysed as if every lookup missed.",
     'level': 'other',
     'technique': 'static: hook call sites located by attribute name; own-__dict__ guard by dominance; ancestor loop shape and '
                  'dominance over the own hook; single external caller; placement by must-pass-through; converting handler',
